@@ -33,9 +33,10 @@ type Graph struct {
 }
 
 type result struct {
-	Res   string // ok | err | retry | wait
-	After int    // hours, for retry
-	WS    string // waited status for wait
+	LogErr bool   // the handler logs an ERROR line (t.Errorf) before returning (secondary/transient error)
+	Res    string // ok | err | retry | wait
+	After  int    // hours, for retry
+	WS     string // waited status for wait
 }
 
 type startRec struct {
@@ -339,6 +340,11 @@ func (e *Engine) newRunner() {
 				e.dying <- startMsg{gen, i, ph}
 				r = <-gate
 			}
+			if r.LogErr {
+				t.State().Lock()
+				t.Errorf("transient-%d-%s", i, ph)
+				t.State().Unlock()
+			}
 			switch r.Res {
 			case "ok":
 				return nil
@@ -510,9 +516,13 @@ func (e *Engine) Finish(t int, r result) error {
 		return fmt.Errorf("HARNESS: task %d is not running", t)
 	}
 	before := e.token()
+	need := uint64(1)
+	if r.LogErr && !e.external {
+		need = 2 // the handler's own Errorf section checkpoints once before the post-handler section does
+	}
 	gate <- r
 	deadline := time.After(watchdog)
-	for e.token() == before {
+	for (e.external && e.token() == before) || (!e.external && e.token() < before+need) {
 		select {
 		case <-deadline:
 			return fmt.Errorf("HARNESS: no checkpoint after releasing task %d", t)
